@@ -6,6 +6,8 @@ import (
 	"strings"
 	"testing"
 	"testing/synctest"
+
+	"verif.local/vsync/kern"
 )
 
 // Violation is one oracle verdict.
@@ -21,17 +23,17 @@ func (v Violation) String() string { return fmt.Sprintf("%s [%s] %s", v.Property
 
 // Result of executing one plan.
 type Result struct {
-	Violations  []Violation      `json:"violations,omitempty"`
-	Harness     string           `json:"harness,omitempty"` // non-empty: harness trouble, never a violation
-	Tape        *Tape            `json:"tape,omitempty"`
-	Log         []string         `json:"log,omitempty"`
-	Counters    map[string]int   `json:"counters,omitempty"`
-	Fingerprint uint64           `json:"fingerprint"`
-	States      []uint64         `json:"-"`
-	Steps       int              `json:"steps"`
-	SimNanos    int64            `json:"sim_ns"`
-	Switches    int              `json:"switches"`
-	SwitchInOp  int              `json:"switch_in_op"`
+	Violations  []Violation    `json:"violations,omitempty"`
+	Harness     string         `json:"harness,omitempty"` // non-empty: harness trouble, never a violation
+	Tape        *Tape          `json:"tape,omitempty"`
+	Log         []string       `json:"log,omitempty"`
+	Counters    map[string]int `json:"counters,omitempty"`
+	Fingerprint uint64         `json:"fingerprint"`
+	States      []uint64       `json:"-"`
+	Steps       int            `json:"steps"`
+	SimNanos    int64          `json:"sim_ns"`
+	Switches    int            `json:"switches"`
+	SwitchInOp  int            `json:"switch_in_op"`
 }
 
 func (r *Result) Count(name string, d int) {
@@ -54,13 +56,22 @@ func (r *Result) First(prop string) *Violation {
 // Bubble runs f inside a synctest bubble and converts the end-of-bubble
 // deadlock panic (goroutines left blocked) into a harness error string.
 func Bubble(t *testing.T, f func()) (harness string) {
-	defer func() {
-		if r := recover(); r != nil {
-			harness = fmt.Sprintf("bubble: %v", r)
-		}
-	}()
-	synctest.Test(t, func(t *testing.T) { f() })
-	return ""
+	run := func(t *testing.T) {
+		defer func() {
+			if r := recover(); r != nil {
+				harness = fmt.Sprintf("bubble: %v", r)
+			}
+		}()
+		synctest.Test(t, func(t *testing.T) { f() })
+	}
+	if kern.RaceBuild {
+		// A race report makes the testing package fail the test that ran the
+		// bubble (FailNow): give every run its own subtest so the search goes on.
+		t.Run("run", run)
+		return harness
+	}
+	run(t)
+	return harness
 }
 
 // FuncOfStack extracts the innermost function of the code under test from a
